@@ -514,24 +514,54 @@ def replay_decompressor(maxes, block):
 
 
 # ---------------------------------------------------------- 4. header bookkeeping write -> read
-def session_roundtrip(pattern, nstages=1):
-    """real create session, then the real reader on the header it wrote: names in order, sizes, digests, folder"""
+class HeaderDecoder(Native):
+    """decoder stub for the encoded-header folder: hands back the raw header the session's encoder stub consumed"""
+
+    def __init__(self, items, rec):
+        self.items, self.rec, self.done = items, rec, False
+        self.consumed, self.input_size, self.crc = 0, 0, None
+
+    def decompress(self, eng, fp, max_length=-1):
+        self.rec.setdefault("read_at", fp.tell(eng))
+        self.rec.setdefault("max_length", max_length)
+        if self.done:
+            return eng.mkbytes(b"")
+        self.done = True
+        from vf.pysym.values import SBytes
+
+        return SBytes(list(self.items))
+
+
+def session_roundtrip(pattern, nstages=1, header_mode="raw"):
+    """real create session, then the real reader on the header it wrote: names in order, sizes, digests, folder.
+    header_mode 'encoded': the header goes through Header._encode_header (encoder stub) and comes back through the
+    encoded-header branch of Header._read (decoder stub handing back the same raw header)"""
     n = len(pattern)
-    r = ObResult(bounds="create session of kinds %s, %d stage(s); the header it writes is read back by the real "
-                        "Header._read/_real_get_contents; sizes/CRCs symbolic" % (pattern or "-", nstages))
+    r = ObResult(bounds="create session of kinds %s, %d stage(s), %s header; the header it writes is read back by the real "
+                        "Header._read/_real_get_contents; sizes/CRCs symbolic" % (pattern or "-", nstages, header_mode))
     eng, st = c08.mk_engine()
     sizes = [eng.sym_int("size%d" % i, 40) for i in range(n)]
     names = c07.session_names(n)
 
     def harness(e):
         st.pop("compressors", None)
-        fp, header, comps = c07.run_session(e, st, pattern, sizes, names)
+        fp, header, comps = c07.run_session(e, st, pattern, sizes, names, header_mode=header_mode)
         hdr, start, sig = S.header_items(fp)
         data_len = e.binop(ast.Sub(), start, 32)
+        rec = {}
+        if header_mode != "raw":
+            hcomp = comps[-1]
+            raw_items = hcomp.sources[-1] if getattr(hcomp, "sources", None) else []
+            rec["blob_at"] = [op[1] for op in fp.ops if op[0] == "write" and isinstance(op[2], S.Blob) and op[2].tag[0] == hcomp.ident][0]
+            rec["packsize"] = hcomp.packsize
+            e.class_models[("py7zr.compressor", "SevenZipDecompressor")] = lambda e_, coders, packsize, unpacksizes, crc, password=None, blocksize=None: (
+                rec.setdefault("asked_packsize", packsize), HeaderDecoder(raw_items, rec))[1]
         try:
             z, fp2 = S.open_for_read(e, hdr, data_len)
         except ModelRaise as ex:
             return dict(exc="reopen:" + ex.name + str(ex.eargs)[:80])
+        finally:
+            e.class_models.pop(("py7zr.compressor", "SevenZipDecompressor"), None)
         out = []
         hd = z.attrs["header"]
         fobjs = hd.attrs["main_streams"].attrs["unpackinfo"].attrs["folders"] if hd.attrs.get("main_streams") else []
@@ -540,12 +570,19 @@ def session_roundtrip(pattern, nstages=1):
             out.append(dict(name=fi.get("filename"), size=fi.get("uncompressed"), digest=fi.get("digest"),
                             folder=(fobjs.index(fi["folder"]) if fi.get("folder") is not None else None),
                             emptystream=fi.get("emptystream"), is_dir=e.models.getattr(e, af, "is_directory")))
-        return dict(files=out, comps=comps)
+        return dict(files=out, comps=comps, rec=rec)
 
     def post(o):
         if "exc" in o:
             return False
         c = [len(o["files"]) == n]
+        if header_mode != "raw":
+            rec = o["rec"]
+            # the reader looks for the packed header exactly where the writer put it, and asks for exactly its size
+            c.append("read_at" in rec and eq(eng, rec["read_at"], rec["blob_at"]) is not False)
+            if "read_at" in rec:
+                c.append(eq(eng, rec["read_at"], rec["blob_at"]))
+                c.append(eq(eng, rec["asked_packsize"], rec["packsize"]))
         comp = o["comps"][0] if o["comps"] else None
         pos = 0
         for i, (k, f) in enumerate(zip(pattern, o["files"])):
@@ -566,10 +603,62 @@ def session_roundtrip(pattern, nstages=1):
 
     decide(eng, harness, post, {"size%d" % i: s for i, s in enumerate(sizes)}, r,
            describe=lambda o: o.get("exc") or "%d members read back" % len(o["files"]))
-    _cex(r, "session_roundtrip", lambda w: dict(module="vf.props.c07", func="replay_session", kwargs={
-        "pattern": pattern, "sizes": [min(w["size%d" % i], 70000) for i in range(n)], "names": names}),
-         signature=lambda w: {"obligation": "session_roundtrip"})
+    if header_mode == "raw":
+        _cex(r, "session_roundtrip", lambda w: dict(module="vf.props.c07", func="replay_session", kwargs={
+            "pattern": pattern, "sizes": [min(w["size%d" % i], 70000) for i in range(n)], "names": names}),
+             signature=lambda w: {"obligation": "session_roundtrip"})
+    else:
+        _cex(r, "session_roundtrip", lambda w: dict(module="vf.props.c01", func="replay_roundtrip", kwargs={
+            "pattern": pattern, "sizes": [min(w["size%d" % i], 70000) for i in range(n)], "names": names, "header_mode": header_mode}),
+             signature=lambda w: {"obligation": "session_roundtrip", "header": header_mode})
     return r
+
+
+def replay_roundtrip(pattern, sizes, names, header_mode):
+    """write with the real library (default filters, encoded or encrypted header) and read back with it"""
+    import os
+    import shutil
+    import tempfile
+
+    import py7zr
+    from py7zr.io import BytesIOFactory
+
+    d = tempfile.mkdtemp(prefix="vf_c01r_")
+    try:
+        buf = io.BytesIO()
+        pw = "pw" if header_mode == "encrypted" else None
+        z = py7zr.SevenZipFile(buf, "w", password=pw, header_encryption=(header_mode == "encrypted"))
+        expect = {}
+        for i, k in enumerate(pattern):
+            data = bytes((i + j) & 0xFF for j in range(sizes[i]))
+            if k == "s":
+                z.writestr(data, names[i])
+                expect[names[i]] = data
+            else:
+                p = os.path.join(d, "src%d" % i)
+                if k == "d":
+                    os.mkdir(p)
+                elif k == "l":
+                    os.symlink("target%d" % i, p)
+                    expect[names[i]] = b"target%d" % i
+                else:
+                    open(p, "wb").write(data)
+                    expect[names[i]] = data
+                z.write(p, names[i])
+        z.close()
+        try:
+            zz = py7zr.SevenZipFile(io.BytesIO(buf.getvalue()), password=pw)
+            got_names = zz.getnames()
+            fac = BytesIOFactory(10 ** 7)
+            zz.extractall(factory=fac)
+            got = {k_: v.read() for k_, v in fac.products.items()}
+        except Exception as e:  # noqa
+            return True, "archive written with %s header cannot be read back: %r" % (header_mode, e)
+        if got_names != names or got != expect:
+            return True, "read back names %s / sizes %s" % (got_names, {k_: len(v) for k_, v in got.items()})
+        return False, "round trip ok"
+    finally:
+        shutil.rmtree(d, ignore_errors=True)
 
 
 def units(tier):
@@ -586,5 +675,7 @@ def units(tier):
                        dict(k=k, honour=hon, nstages=ns), 1800))
     for p in (["s", "ss", "sds", "lsf", ""] if tier == "quick" else ["s", "ss", "sds", "lsf", "", "ssss", "dsd", "fdl"]):
         us.append(Unit("4.session_roundtrip[%s]" % (p or "empty"), M, "session_roundtrip", dict(pattern=p), 900))
+    for p in (["s", "sd"] if tier == "quick" else ["s", "sd", "ss", "lsf", ""]):
+        us.append(Unit("4.session_roundtrip[%s,encoded header]" % (p or "empty"), M, "session_roundtrip", dict(pattern=p, header_mode="encoded"), 900))
     us += [Unit("5.names." + u.name, u.module, u.func, u.kwargs, u.timeout) for u in c17.units(tier) if u.name.startswith("d.utf16")]
     return us
